@@ -44,9 +44,10 @@ def plan(tier, seed):
             for j in range(len(PHR)):
                 if PHR[i][0] <= PHR[j][0]:
                     shards.append(("k3", i, j))
+    shards += [("long", n) for n in (8, 12, 20, 40)]
     return dict(
         shards=shards,
-        bounds=dict(max_phrases=2 if tier == "quick" else 3, phrase_start="0..5", phrase_length="0..4", note_ticks="all non-empty subsets of 0..8"),
+        bounds=dict(long_lists="lists of 8, 12, 20, 40 phrases (adjacent / nested / zero-length interspersed / overlapping ladders) with a note on every tick", max_phrases=2 if tier == "quick" else 3, phrase_start="0..5", phrase_length="0..4", note_ticks="all non-empty subsets of 0..8"),
         budget_s=1200 if tier == "thorough" else 300,
     )
 
@@ -84,8 +85,31 @@ def check_list(ctx, phr, placements, nt=NT):
             ctx.hist["in_phrase" if idx is not None else "outside"] += 1
 
 
+def long_lists(n):
+    yield "adjacent", [(3 * i, 3) for i in range(n)]
+    yield "adjacent+zero", [(3 * (i // 2), 0 if i % 2 == 0 else 3) for i in range(n)]
+    yield "nested", [(i, 2 * (n - i)) for i in range(n)]
+    yield "outer+inner", [(0, 4 * n)] + [(4 * i + 1, 2) for i in range(n - 1)]
+    yield "ladder", [(2 * i, 5) for i in range(n)]
+    yield "sparse", [(7 * i, 1 + i % 3) for i in range(n)]
+    yield "zero-first", [(0, 0)] * (n // 2) + [(i, 1) for i in range(n - n // 2)]
+
+
 def run_shard(shard, ctx):
     kind = shard[0]
+    if kind == "long":
+        for name, phr in long_lists(shard[1]):
+            last = max(t + ln for t, ln in phr) + 2
+            for notes in (list(range(last + 1)), list(range(0, last + 1, 2)), list(range(1, last + 1, 3)), [last - 1], [phr[-1][0]]):
+                expected = [[n, next((i for i, (t, ln) in enumerate(phr) if t <= n < t + ln), None)] for n in notes]
+                body = body_for(phr, notes, "before")
+                text = mk(tracks={"ExpertSingle": body})
+                got = e1.run_probe(probe, text)
+                ctx.case(text, sample=lambda: dict(layout=name, phrases=len(phr), notes=len(notes)))
+                ctx.evaluations += len(notes)
+                if got != expected:
+                    e1.report(ctx, "membership", text, PROBE_SRC, [expected], got, "%d phrases (%s) %r, note ticks %r" % (len(phr), name, phr[:6], notes[:12]))
+        return
     if kind == "k1":
         if shard[1] < 0:
             check_list(ctx, (), ("merged",))
